@@ -98,6 +98,10 @@ func genC11StepsAt(t *rapid.T, depth int, top bool) []Step {
 		st := Step{Op: "call", API: api, Cfg: genC11Cfg(t), Value: val,
 			Shape: rapid.SampledFrom([]string{"direct", "closure", "helper_same", "helper_nontest", "helper_pkg"}).Draw(t, "shape"),
 			Depth: rapid.SampledFrom([]int{0, 1, 2, 3, 3, 40, 100}).Draw(t, "depth")}
+		if api != "snap" && api != "ssnap" && rapid.IntRange(0, 7).Draw(t, "rejected") == 0 {
+			// a call that is rejected (input is not JSON / YAML): it is the k-th call of its test all the same
+			st.Value, st.Tag = map[string]string{"json": "{not json", "sjson": "{not json", "yaml": "a: [1"}[api], "rejected"
+		}
 		if !top && (api == "ssnap" || api == "sjson") {
 			// the k of "<Filename>_<k>" counts the calls of ONE test: with a fixed Filename two tests share file 1.
 			// Only the top-level test uses a fixed Filename for standalone snapshots.
@@ -166,6 +170,9 @@ func expectedC11(c c11Case, absDir string) (files map[string][]string) {
 					}
 					pattern := filepath.Join(dir, fn+"_#.snap"+ext)
 					solo[pattern]++
+					if st.Tag == "rejected" {
+						continue
+					}
 					p := filepath.Join(dir, fmt.Sprintf("%s_%d.snap%s", fn, solo[pattern], ext))
 					files[p] = append(files[p], "")
 					continue
@@ -176,6 +183,9 @@ func expectedC11(c c11Case, absDir string) (files map[string][]string) {
 				}
 				p := filepath.Join(dir, fn+".snap"+ext)
 				multi[p+"\x00"+name]++
+				if st.Tag == "rejected" {
+					continue
+				}
 				files[p] = append(files[p], fmt.Sprintf("%s - %d", name, multi[p+"\x00"+name]))
 			}
 		}
@@ -249,6 +259,8 @@ func checkC11(c c11Case) error {
 		{"-trimpath build with GOFLAGS=-trimpath in the environment (as under `GOFLAGS=-trimpath go test`)", RunOpts{Pkg: c.Pkg, Trim: true, GoFlags: "-trimpath"}},
 		{"normal build with unrelated GOFLAGS in the environment", RunOpts{Pkg: c.Pkg, GoFlags: "-mod=mod -count=1"}},
 		{"-trimpath build with unrelated GOFLAGS in the environment", RunOpts{Pkg: c.Pkg, Trim: true, GoFlags: "-mod=mod"}},
+		{"normal build, foreign cwd, GOFLAGS=-trimpath=false in the environment", RunOpts{Pkg: c.Pkg, Cwd: foreign, GoFlags: "-trimpath=false"}},
+		{"normal build, foreign cwd, GOFLAGS=-gcflags=-trimpath=/src -mod=mod in the environment", RunOpts{Pkg: c.Pkg, Cwd: foreign, GoFlags: "-gcflags=-trimpath=/src -mod=mod"}},
 	}
 	for _, v := range variants {
 		cleanShard()
@@ -257,8 +269,8 @@ func checkC11(c c11Case) error {
 			return fmt.Errorf("%s: %v", v.name, err)
 		}
 		for _, cr := range res.Calls {
-			if len(cr.Errors) != 0 {
-				return fmt.Errorf("%s: call in %s reported %q (output %s)", v.name, cr.Test, cr.Errors, clip(out))
+			if (len(cr.Errors) != 0) != (cr.Tag == "rejected") {
+				return fmt.Errorf("%s: call in %s (%s) reported %q (output %s)", v.name, cr.Test, cr.Tag, cr.Errors, clip(out))
 			}
 		}
 		got := observedFiles()
@@ -352,6 +364,9 @@ func classifyC11(c c11Case) ([]string, bool) {
 			}
 			if st.API == "ssnap" || st.API == "sjson" {
 				cls = append(cls, "standalone")
+			}
+			if st.Tag == "rejected" {
+				cls = append(cls, "rejected_call_consumes_its_ordinal")
 			}
 		}
 	}
